@@ -1,6 +1,2 @@
-<<<<<<< HEAD
-/- The `CommRing GQ` instance lives in the shared module `OFV.Proofs.GQRing`. -/
-=======
 /- the `CommRing GQ` instance lives in the shared module -/
->>>>>>> agentG
 import OFV.Proofs.GQRing
